@@ -1,4 +1,5 @@
 import Fv.Lemmas.SpmcBWake
+import Fv.Lemmas.SpmcBDrop
 /-!
 # SpmcB — step-level theorems about the broadcast SPMC channel (feeds C07; spmc parts of C03/C04/C05/C09)
 
@@ -478,6 +479,26 @@ theorem waker_holder_not_parked {q : SPC} {t c j : Nat} (h : t ∈ accOf q ∨ w
     ∀ x, q ≠ .pPark x := by
   intro x e; subst e
   rcases h with h | h | h <;> simp [accOf, willDrain, willDrainC] at h
+
+/-! ## Every payload is dropped exactly once (C09, ring payloads) -/
+
+/-- While the channel lives, the payloads it has dropped are exactly those more than a lap behind
+what has been written (each dropped by the overwrite `assume_init_drop` of the next lap). -/
+theorem overwritten_payloads_dropped {cap : Nat} {s : State} (hc : 0 < cap) (h : Reach cap s) (hnt : s.taint = false)
+    (ht : s.torn = false) : s.dropped = List.range (s.sent.length + (if s.dirty then 1 else 0) - s.cap) :=
+  dropInv_reach hc h hnt ht
+
+/-- **At teardown (`Slot::drop` of every odd-sequence slot) every value ever written into the ring has
+been dropped by the channel exactly once.** (The clones handed to receivers are owned by the callers.) -/
+theorem C09_ring_payload_dropped_exactly_once {cap : Nat} {s s' : State} (hc : 0 < cap) (h : Reach cap s)
+    (hnt : s.taint = false) (ht : stepTeardown s = some s') :
+    s'.dropped.Nodup ∧ ∀ i, i ∈ s'.dropped ↔ i < s'.sent.length :=
+  teardown_drops_each_once hc h hnt ht
+
+/-- non-vacuity: a complete life cycle with wrap-around ends in a teardown that drops 0,1,2 once each -/
+example : ((runOps (init 2) [(0, .send 7), (0, .recv 0 .try none), (0, .send 8), (0, .recv 0 .try none), (0, .send 9),
+      (0, .rDrop 0), (0, .sDrop)]).bind stepTeardown).map (fun s => (s.dropped, s.sent)) = some ([0, 1, 2], [7, 8, 9]) := by
+  decide
 
 /-! ## Witnesses: what goes wrong in the two tainted uses (proved by evaluation of the model) -/
 
